@@ -68,6 +68,11 @@ type Sched struct {
 	liveActors int
 }
 
+// deadlockSeen: a scheduler of the current run found every goroutine parked,
+// waiting or blocked for a simulated hour. Goroutines blocked for good (on a
+// channel of the tree under test) then outlive the run's bubble.
+var deadlockSeen bool
+
 // FaultAction is what a fault callback asks the yielding goroutine to do.
 type FaultAction int
 
@@ -563,6 +568,7 @@ func (s *Sched) Run() {
 			if !s.waitKick() {
 				s.mu.Lock()
 				s.Deadlock = true
+				deadlockSeen = true
 				desc := ""
 				for _, g := range s.all {
 					if g.state != gDone {
